@@ -22,7 +22,7 @@ type Alt struct{ Options []interface{} }
 
 // StageInvocation is one expected execution of a stage call.
 type StageInvocation struct {
-	Path    string                 // call path, e.g. TOP/INNER/STAGE
+	Path    string // call path, e.g. TOP/INNER/STAGE
 	Stage   *Stage
 	Args    map[string]interface{} // expected input arguments
 	Context string                 // human-readable fork context
@@ -77,7 +77,7 @@ type Model struct {
 	// TopMapped: the top-level call is a map call; each TopOuts value is the
 	// collection (array / keyed map) of the forks' values of that output.
 	TopMapped bool
-	invByKey map[string]*StageInvocation
+	invByKey  map[string]*StageInvocation
 	// Stage call paths inside a mapped pipeline call with an empty / null
 	// source whose bindings do not depend on that dimension (the runtime
 	// executes them once; the property says nothing of such a call runs).
